@@ -422,7 +422,7 @@ def run(chk):
             for cfg in ({p: True for p in PERM_ORDER_DOC}, {p: False for p in PERM_ORDER_DOC}, unset):
                 cases.append((sh, cfg, f"{name}/bad-arg"))
     # (2) random programs x all 64 assignments (+ the unconfigured set)
-    n_prog = 60 if quick else 500
+    n_prog = 40 if quick else 500
     progs = []
     while len(progs) < n_prog:
         sh = random_shape(rng)
